@@ -459,7 +459,7 @@ func (k Keeper) buildRequest(
 
 	if !superMode {
 		binding, _ := k.GetServiceBinding(ctx, serviceName, provider)
-		serviceFee = k.GetPrice(ctx, consumer, binding)
+		serviceFee, _, _ = k.GetExchangedPrice(ctx, consumer, binding)
 	}
 
 	return types.NewCompactRequest(
